@@ -3,7 +3,8 @@
 (* pool, which is emitted once) x every namespace selection, with the store   *)
 (* the property demands (Expected), the as-is store (leading "Main:" dropped  *)
 (* on add) when it differs, and the keys of the pages on which the statement can *)
-(* be read both ways.                                                         *)
+(* be read both ways, and for redirect pages whose target is not written the   *)
+(* way a MediaWiki export writes it the other spellings of the same target.   *)
 EXTENDS MC_Ingest, Json
 
 VARIABLE g
@@ -22,7 +23,8 @@ CaseOf ==
       asis == StoreAfter(dump, sel, TRUE) IN
   [f |-> g, sel |-> SetToSeq(sel), exp |-> SetToSeq(exp),
    same |-> asis = exp, asis |-> IF asis = exp THEN <<>> ELSE SetToSeq(asis),
-   amb |-> SetToSeq(AmbKeys(dump))]
+   amb |-> SetToSeq(AmbKeys(dump)),
+   redalt |-> SetToSeq({[title |-> x.title, ns |-> x.ns, alts |-> SetToSeq(x.alts)] : x \in SoftRedirects(exp)})]
 
 GenInv ==
   /\ (g = <<>> => PrintT(<<"POOL", ToJson([pool |-> PoolSeq, defaults |-> Defaults])>>))
